@@ -93,6 +93,7 @@ func runC17(c *Ctx, r *Report) {
 	defer c17r11(c, r)
 	defer c17r12(c, r)
 	defer c17r13(c, r)
+	defer c17r14(c, r)
 	po := l.Fn("fzf", "ParseOptions")
 	pos := l.Fn("fzf", "parseOptions")
 	if po == nil || pos == nil {
